@@ -2,18 +2,23 @@
 //@ assume: txhashset::header_extending is abstract (it builds structs holding `&mut` borrows): assumed to return Ok(v) only if the closure returned Ok(v), to keep the closure's index writes (made on a child batch) only if the closure did not force a rollback, and to leave the batch untouched on Err
 //@ assume: T7: the closure passed to txhashset::header_extending is lifted to pbhs_inner (captured last_header, sync_head, head, ctx_specific_validation become parameters). T6: `headers.last().expect(..)` => helper last_of (requires non-empty, returns the last element); `last_header.into()` => tip_from (the From<&BlockHeader> impl, field-for-field the same as Tip::from_header); `&mut batch` on the closure's `mut batch: &mut Batch` parameter => `batch`; `for header in headers {` => Verus iterator loop with spliced invariant; log macros removed
 //@ assume: decided here: pipe::process_block_headers (header sync) moves the stored header head ONLY to the tip of the LAST header of the batch, ONLY if that header has strictly more total difficulty than the header head read at the start, and ONLY after EVERY header of the batch passed validate_header and the fork was applied to the header MMR; otherwise the header extension is force-rolled-back and the header head is untouched (also on every error path and for an empty batch)
+//@ assume: decided here (C04, 'a header is accepted only if it ... commits to the header-MMR root of its ancestors', for the header-sync entry point): every header that process_block_headers ADDS TO THE STORE in a call that returns Ok passed validate_header AND is the last header of the batch or one of its ancestors by prev_hash links -- the only headers rewind_and_apply_header_fork checks against the header MMR root (assumed here: a successful rewind_and_apply_header_fork(last) means every header on last's ancestry commits to the header-MMR root of its own ancestors -- the fork headers are validate_root-ed there (C04/header_fork), those below the fork point when they entered the MMR); ancestry is the reflexive-transitive closure of `child.prev_hash == parent.hash()` (axioms ax_anc; hashes identify headers)
 //@ assumed_items: 20
+//@ import: use vstd::std_specs::cmp::PartialEqSpecImpl;
 //@ fns: pipe::process_block_headers, pipe::process_block_headers (closure passed to txhashset::header_extending), pipe::has_more_work, pipe::update_header_head
-#[verifier::external_body]
 #[derive(Clone, Copy)]
-pub struct Hash { _p: u8 }
+pub struct Hash { pub v: u64 }
+impl PartialEqSpecImpl for Hash { open spec fn obeys_eq_spec() -> bool { true } open spec fn eq_spec(&self, other: &Hash) -> bool { self.v == other.v } }
+impl PartialEq for Hash { fn eq(&self, other: &Hash) -> (r: bool) { self.v == other.v } }
 #[derive(Clone, Copy, PartialEq, Eq, PartialOrd, Ord)]
 pub struct Difficulty { pub num: u64 }
 #[derive(Clone, Copy)]
 pub struct BlockHeader { pub height: u64, pub td: Difficulty, pub prev_hash: Hash, pub id: Hash }
 #[derive(Clone, Copy)]
 pub struct Tip { pub height: u64, pub last_block_h: Hash, pub prev_block_h: Hash, pub total_difficulty: Difficulty }
-pub enum Error { Rejected, StoreErr }
+pub enum Error { Rejected, StoreErr, Unfit(Msg) }
+pub struct Msg;
+fn unfit_msg() -> Msg { Msg }
 #[verifier::external_body]
 pub struct Allowed { _p: u8 }
 #[verifier::external_body]
@@ -31,12 +36,23 @@ impl Tip {
 }
 pub uninterp spec fn sp_prev(h: BlockHeader) -> BlockHeader;
 pub uninterp spec fn sp_header_valid(h: BlockHeader) -> bool;
-pub uninterp spec fn sp_hfork_applied(prev: BlockHeader) -> bool;
+pub uninterp spec fn sp_hfork_done(prev: BlockHeader) -> bool;
+/// h commits to the header-MMR root of its ancestors
+pub uninterp spec fn sp_root_ok(h: BlockHeader) -> bool;
+/// a is b or one of b's ancestors (by prev_hash links)
+pub uninterp spec fn sp_anc(a: BlockHeader, b: BlockHeader) -> bool;
+pub open spec fn sp_link(parent: BlockHeader, child: BlockHeader) -> bool { child.prev_hash == parent.id }
+#[verifier::external_body]
+pub proof fn ax_anc()
+    ensures forall|h: BlockHeader| #[trigger] sp_anc(h, h),
+            forall|a: BlockHeader, b: BlockHeader, c: BlockHeader| #![trigger sp_anc(a, b), sp_link(b, c)] sp_anc(a, b) && sp_link(b, c) ==> sp_anc(a, c) { }
+/// the fork ending in `prev` is on the header MMR: every header of prev's ancestry was checked against the MMR root
+pub open spec fn sp_hfork_applied(prev: BlockHeader) -> bool { sp_hfork_done(prev) && forall|h: BlockHeader| #[trigger] sp_anc(h, prev) ==> sp_root_ok(h) }
 pub uninterp spec fn sp_root_valid(h: BlockHeader) -> bool;
 pub uninterp spec fn sp_header_applied(h: BlockHeader) -> bool;
 pub open spec fn sp_more_work(h: BlockHeader, head: Tip) -> bool { h.td.num > head.total_difficulty.num }
 
-pub struct Batch { pub header_head: Ghost<Tip>, pub _p: u8 }
+pub struct Batch { pub header_head: Ghost<Tip>, pub added: Ghost<Set<BlockHeader>>, pub _p: u8 }
 impl Batch {
     #[verifier::external_body]
     pub fn head(&self) -> (r: Result<Tip, Error>) { unimplemented!() }
@@ -48,7 +64,7 @@ impl Batch {
     pub fn get_block_header(&self, h: &Hash) -> (r: Result<BlockHeader, Error>) { unimplemented!() }
     #[verifier::external_body]
     pub fn save_header_head(&mut self, t: &Tip) -> (r: Result<(), Error>)
-        ensures r.is_ok() ==> final(self).header_head@ == *t, r.is_err() ==> final(self).header_head@ == old(self).header_head@ { unimplemented!() }
+        ensures r.is_ok() ==> final(self).header_head@ == *t, r.is_err() ==> final(self).header_head@ == old(self).header_head@, final(self).added@ == old(self).added@ { unimplemented!() }
 }
 pub struct HeaderExtension { pub rollback: bool }
 impl HeaderExtension {
@@ -68,13 +84,13 @@ pub struct BlockContext { pub batch: Batch, pub header_pmmr: HeaderPmmr, pub hea
 fn check_known(header: &BlockHeader, head: &Tip, ctx: &BlockContext) -> (r: Result<(), Error>) { unimplemented!() }
 #[verifier::external_body]
 fn validate_header(header: &BlockHeader, ctx: &mut BlockContext) -> (r: Result<(), Error>)
-    ensures r.is_ok() ==> sp_header_valid(*header), final(ctx).batch.header_head@ == old(ctx).batch.header_head@ { unimplemented!() }
+    ensures r.is_ok() ==> sp_header_valid(*header), final(ctx).batch.header_head@ == old(ctx).batch.header_head@, final(ctx).batch.added@ == old(ctx).batch.added@ { unimplemented!() }
 #[verifier::external_body]
 pub fn rewind_and_apply_header_fork(prev: &BlockHeader, ext: &mut HeaderExtension, batch: &mut Batch, allowed: &Allowed) -> (r: Result<(), Error>)
-    ensures r.is_ok() ==> sp_hfork_applied(*prev), final(ext).rollback == old(ext).rollback, final(batch).header_head@ == old(batch).header_head@ { unimplemented!() }
+    ensures r.is_ok() ==> sp_hfork_applied(*prev), final(ext).rollback == old(ext).rollback, final(batch).header_head@ == old(batch).header_head@, final(batch).added@ == old(batch).added@ { unimplemented!() }
 #[verifier::external_body]
 fn add_block_header(bh: &BlockHeader, batch: &mut Batch) -> (r: Result<(), Error>)
-    ensures final(batch).header_head@ == old(batch).header_head@ { unimplemented!() }
+    ensures final(batch).header_head@ == old(batch).header_head@, final(batch).added@ == old(batch).added@.insert(*bh) { unimplemented!() }
 
 
 pub uninterp spec fn sp_on_current(t: Tip) -> bool;
@@ -127,8 +143,14 @@ pub struct HsInnerEnv<'a> { pub last_header: &'a BlockHeader, pub sync_head: Tip
 fn header_extending_pbhs(allowed: &Allowed, header_pmmr: &mut HeaderPmmr, batch: &mut Batch, env: HsInnerEnv) -> (r: Result<Option<Tip>, Error>)
     ensures r.is_ok() ==> exists|hh: Tip, rb: bool| sp_hsinner_ok(*env.last_header, env.head, old(batch).header_head@, hh, rb)
                 && final(batch).header_head@ == (if rb { old(batch).header_head@ } else { hh }),
-            r.is_err() ==> final(batch).header_head@ == old(batch).header_head@ { unimplemented!() }
+            r.is_err() ==> final(batch).header_head@ == old(batch).header_head@,
+            final(batch).added@ == old(batch).added@ { unimplemented!() }
 
+/// the store's added headers are the old ones plus the first `upto` of the batch
+pub open spec fn added_upto(added: Set<BlockHeader>, old_added: Set<BlockHeader>, hs: Seq<BlockHeader>, upto: int) -> bool {
+    forall|h: BlockHeader| #[trigger] added.contains(h) ==> old_added.contains(h) || exists|j: int| 0 <= j < upto && hs[j] == h
+}
+pub open spec fn all_anc(hs: Seq<BlockHeader>, upto: int) -> bool { forall|j: int| 0 <= j < upto ==> sp_anc(#[trigger] hs[j], hs[upto - 1]) }
 pub open spec fn all_valid(hs: Seq<BlockHeader>, upto: int) -> bool { forall|i: int| 0 <= i < upto ==> sp_header_valid(#[trigger] hs[i]) }
 
 //@ extract chain/src/pipe.rs :: fn process_block_headers
@@ -139,10 +161,25 @@ pub open spec fn all_valid(hs: Seq<BlockHeader>, upto: int) -> bool { forall|i: 
 //@   rewrite `for header in headers {` => `for header in it: headers.iter() {`
 //@   rewrite `\tlet ctx_specific_validation = &ctx.header_allowed;\n` => ``
 //@   rewrite `txhashset::header_extending(&mut ctx.header_pmmr, &mut ctx.batch, HsInnerEnv {` => `header_extending_pbhs(&ctx.header_allowed, &mut ctx.header_pmmr, &mut ctx.batch, HsInnerEnv {`
+//@   rewrite `"headers not linked".to_owned()` => `unfit_msg()` x?
+//@   at_start:
+//@+    // the variable the linkage check keeps (shadowed by the function's own one; without it the invariant below fails)
+//@+    let prev_hash: Option<Hash> = None;
+//@   after? `prev_hash = Some(header.hash());`:
+//@+    proof { ax_anc();
+//@+        assert(all_anc(headers@, it.index@ + 1)) by {
+//@+            assert forall|j: int| 0 <= j < it.index@ + 1 implies sp_anc(#[trigger] headers@[j], headers@[it.index@ as int]) by {
+//@+                if j < it.index@ { assert(sp_link(headers@[it.index@ - 1], headers@[it.index@ as int])); assert(sp_anc(headers@[j], headers@[it.index@ - 1])); }
+//@+            }
+//@+        }
+//@+    }
 //@   loop 1:
 //@+    invariant
 //@+        all_valid(headers@, it.index@ as int),
 //@+        ctx.batch.header_head@ == old(ctx).batch.header_head@,
+//@+        added_upto(ctx.batch.added@, old(ctx).batch.added@, headers@, it.index@ as int),
+//@+        it.index@ > 0 ==> prev_hash == Some(headers@[it.index@ - 1].id),
+//@+        all_anc(headers@, it.index@ as int),
 //@   ensures:
 //@+    final(ctx).batch.header_head@ == old(ctx).batch.header_head@ || (
 //@+        r.is_ok() && headers@.len() > 0
@@ -150,5 +187,7 @@ pub open spec fn all_valid(hs: Seq<BlockHeader>, upto: int) -> bool { forall|i: 
 //@+        && sp_more_work(headers@.last(), old(ctx).batch.header_head@)
 //@+        && all_valid(headers@, headers@.len() as int)
 //@+        && sp_hfork_applied(headers@.last())),
+//@+    // C04: whatever this call added to the store is a valid header that commits to the header-MMR root of its ancestors
+//@+    r.is_ok() ==> forall|h: BlockHeader| final(ctx).batch.added@.contains(h) && !old(ctx).batch.added@.contains(h) ==> sp_header_valid(h) && sp_root_ok(h),
 //@ end
 //@ canary process_block_headers: final(ctx).batch.header_head@ == old(ctx).batch.header_head@
